@@ -528,8 +528,71 @@ class LazyAtoms:
         n = self._min_len()
         return FSet(list(self.slots(7)), [True if i < n else (i < ln) for i in range(7)])
 
+    def sym_map(self, interp, f):
+        """tuple(f(a) for a in descriptor.atoms) while the class is still open: the image position by position (f must be
+        a pure, non-forking function of one atom)"""
+        from .interp import NotHandled
+
+        if not isinstance(self.owner.fields.get("atoms"), LazyAtoms):
+            return NotHandled
+        return LazyMappedAtoms(self.owner, [f(sl) for sl in self.slots(7)])
+
     def sym_eq(self, other):
         raise OutOfSubset("== on undecided descriptor atoms")
+
+
+class LazyMappedAtoms:
+    """the atoms of a class-undecided descriptor mapped position by position (see LazyAtoms.sym_map)"""
+
+    def __init__(self, owner, slots):
+        self.owner, self.mapped = owner, slots
+
+    def concrete(self, interp):
+        resolve_descr_class(interp, self.owner)
+        return tuple(self.mapped[: len(self.owner.fields["atoms"])])
+
+    def sym_iter(self, interp):
+        return list(self.concrete(interp))
+
+    def sym_len(self, interp):
+        return len(self.concrete(interp))
+
+    def sym_getitem(self, interp, k):
+        return interp.getitem(self.concrete(interp), k)
+
+    def sym_to_tuple(self, interp):
+        return self.concrete(interp)
+
+
+class LazyDescrClass:
+    """`d.__class__` of a descriptor whose class is still open.  Calling it with the position-wise image of d's own atoms
+    builds the descriptor of the SAME class - the contract of the constructor shared by all descriptor classes
+    (_StereoMixin.__init__: length check, stores atoms and parity); anything else decides the class first."""
+
+    def __init__(self, owner):
+        self.owner = owner
+
+    def sym_call(self, interp, args, kwargs):
+        o = self.owner
+        shared = {id(interp.world.cls(c).find("__init__")[1][1]) if interp.world.cls(c).find("__init__")[1] else None for c in o.candidates}
+        if (len(args) == 2 and not kwargs and isinstance(args[0], LazyMappedAtoms) and args[0].owner is o and isinstance(o.fields.get("atoms"), LazyAtoms)
+                and len(shared) == 1 and None not in shared):
+            c = DescrS.dcls(o.term)
+            ln = z3.If(z3.Or(c == CLS["Tetrahedral"], c == CLS["SquarePlanar"]), 5, z3.If(c == CLS["Octahedral"], 7, 6))
+            slots = [oi_term(m) if i < 5 else z3.If(i < ln, oi_term(m), OIntS.ONone) for i, m in enumerate(args[0].mapped)]
+            par = args[1]
+            return descr_obj(interp, DescrS.mkd(c, *slots, oi_term(par if isinstance(par, OI) else oi_of(par))), list(o.candidates))
+        resolve_descr_class(interp, o)
+        from .interp import ClassRef
+
+        a0 = args[0].concrete(interp) if isinstance(args[0], LazyMappedAtoms) else args[0]
+        return interp.instantiate(o.cls, [a0] + list(args[1:]), kwargs)
+
+    def sym_getattr(self, interp, attr):
+        resolve_descr_class(interp, self.owner)
+        from .interp import ClassRef
+
+        return interp.getattr(ClassRef(self.owner.cls), attr)
 
 
 def resolve_descr_class(interp, o):
@@ -552,6 +615,7 @@ def descr_obj(interp, t, allowed):
     o = Obj(interp.world.cls(allowed[0]), {"parity": term_oi(DescrS.par(t))})
     o.term = t
     o.candidates = list(allowed)
+    o.lazy_class = lambda it, o=o: LazyDescrClass(o)
     o.fields["atoms"] = LazyAtoms(o, t)
     if len(allowed) == 1:
         resolve_descr_class(interp, o)
@@ -663,6 +727,11 @@ class DictRef:
         if k is None or not interp.decide(h.d_has(self.t, self.ref, k)):
             if self.t is D_CHG and k is not None:
                 return None  # ChangeDict.__missing__ : None for every Change member, no insertion
+            if getattr(self, "auto", False) and k is not None and isinstance(self.t.vkind, tuple) and self.t.vkind[0] == "ref":
+                # collections.defaultdict(<dict class>): a missing key is created with a new empty dict
+                sub = DICT_TYPES[self.t.vkind[1]]
+                h.d_set(self.t, self.ref, k, h.d_new(sub))
+                return self.wrap(interp, h.d_get(self.t, self.ref, k))
             raise PyRaise("KeyError")
         return self.wrap(interp, h.d_get(self.t, self.ref, k))
 
@@ -729,7 +798,7 @@ class DictRef:
                     kv = _int(key)
                     return OI(key.isnone, z3.If(hh.d_has(self.t, self.ref, kv), hh.d_get(self.t, self.ref, kv), kv))
                 k = self.k(it, key)
-                if k is not None and self.t.vkind == "int" and it.state.get("generic_depth") and _is_atomish(default):
+                if k is not None and self.t.vkind == "int" and (it.state.get("generic_depth") or default is key) and _is_atomish(default):
                     # inside a summarised comprehension nothing may fork on the generic element: if-then-else term
                     hh = heap_of(it)
                     return z3.If(hh.d_has(self.t, self.ref, k), hh.d_get(self.t, self.ref, k), _int(default))
